@@ -307,7 +307,7 @@ pub fn wide_counts_keyed(nv: usize, key: &str) -> Report {
     unsafe {
         let mgr = mk_bdd_manager_default_order(nv as u64);
         let total: u128 = 1u128 << nv;
-        let mut chk = |c: CB, want: u128, what: String, rep: &mut Report| {
+        let chk = |c: CB, want: u128, what: String, rep: &mut Report| {
             let mc = robdd_model_count(mgr, c);
             rep.transitions += 1;
             if mc as u128 != want {
